@@ -197,7 +197,7 @@ def bci (ntok : Nat) (pre conv : Option Nat) (isContract memoCall : Bool) (call 
 
 /-- `pibc <app ok|err> <fx 0|1> <evmaddr 0|1> <conv ok|err|-> <memo none|nojson|invalid|othertype|call> <call>` -/
 def ibc (app : String) (fx evmaddr : Bool) (conv memo call : String) : String :=
-  let conds := ["RecvPacket: ok", "RecvPacket: ack != nil", "Keeper.OnRecvPacket: ok"]
+  let conds := ["RecvPacket: ok", "Keeper.OnRecvPacket: ok"]
     ++ (if fx then [] else ["Keeper.OnRecvPacket: receiveCoin.GetDenom() != fxtypes.DefaultDenom"])
     ++ (if evmaddr then ["Keeper.OnRecvPacket: isEvmAddr"] else [])
     ++ (if memo == "none" then [] else ["Keeper.OnRecvPacket: len(data.Memo) > 0"])
